@@ -2,7 +2,12 @@ use parking_lot::RwLock;
 use std::collections::{hash_map::RandomState, HashMap};
 use std::hash::BuildHasher;
 use std::ops::{Deref, DerefMut};
+#[cfg(not(transparencies_stretto_verif))]
 use std::time::{Duration, SystemTime, UNIX_EPOCH};
+#[cfg(transparencies_stretto_verif)]
+use std::time::Duration;
+#[cfg(transparencies_stretto_verif)]
+use stretto_verif_rt::{SystemTime, UNIX_EPOCH};
 
 use crate::CacheError;
 
@@ -215,3 +220,23 @@ impl<S: BuildHasher + Clone + 'static> ExpirationMap<S> {
 unsafe impl<S: BuildHasher + Clone + 'static> Send for ExpirationMap<S> {}
 
 unsafe impl<S: BuildHasher + Clone + 'static> Sync for ExpirationMap<S> {}
+
+#[cfg(transparencies_stretto_verif)]
+impl Time {
+    /// (ttl in ns, creation instant in ns since the epoch of the virtual clock)
+    pub(crate) fn verif_parts(&self) -> (u128, u128) {
+        (self.d.as_nanos(), self.created_at.as_nanos())
+    }
+}
+
+#[cfg(transparencies_stretto_verif)]
+impl<S: BuildHasher + Clone + 'static> ExpirationMap<S> {
+    /// every bucket with its (key, conflict) entries, in iteration order
+    pub(crate) fn verif_buckets(&self) -> Vec<(i64, Vec<(u64, u64)>)> {
+        self.buckets
+            .read()
+            .iter()
+            .map(|(b, m)| (*b, m.map.iter().map(|(k, c)| (*k, *c)).collect()))
+            .collect()
+    }
+}
